@@ -101,6 +101,17 @@ class C03(Check):
             term = ('a2', 'add', ('var', 0), ('next', ('var', 1)))
             f = [('pred', 'geq', ('a1', 'sqrt', term), ('const', 1)), ('pred', 'geq', ('a1', 'sqrt', ('a2', 'add', ('var', 0), ('evt', 1, 1, ('var', 1)))), ('const', 2))][k % 2]
             cases.append({'f': f, 'n': n, 'nv': 2, 'cols': [x, y], 'times': list(range(n)), 'fe': 'stl', 'partial_warmup': 1})
+        # every binary arithmetic node with a delayed operand on either side (the pastifier rebuilds the node from its visited children)
+        Xv, Yv = ('var', 0), ('var', 1)
+        for op in ('add', 'sub', 'mul', 'div', 'pow'):
+            for (l, r) in ((('next', Xv), Yv), (Xv, ('next', Yv)), (('evt', 1, 1, Xv), ('next', Yv))):
+                n = 6
+                xs = [rng.choice([2, 4, 6]) for _ in range(n)]
+                ys = [rng.choice([1, 2]) for _ in range(n)]
+                cases.append({'f': ('pred', 'geq', ('a2', op, l, r), ('const', 1)), 'n': n, 'nv': 2, 'cols': [xs, ys], 'times': list(range(n)), 'fe': 'stl', 'spec_only': 1})
+                if not fml.ops(('a2', op, l, r)) & {'evt'}:
+                    # (the LTL front end has its own pastifier class)
+                    cases.append({'f': ('pred', 'geq', ('a2', op, l, r), ('const', 1)), 'n': n, 'nv': 2, 'cols': [xs, ys], 'times': list(range(n)), 'fe': 'ltl', 'spec_only': 1})
         # the delay statement under the interface-aware semantics (the pastifier has to carry the io type of every variable over)
         for f in [('implies', P, ('evt', 0, 2, Q)), ('alwt', 0, 1, ('or', P, ('next', Q))), ('and', ('evt', 1, 2, P), Q), ('untilt', 0, 2, P, Q), ('implies', P, ('next', Q))]:
             for sem in ('output-robustness', 'input-robustness', 'output-vacuity', 'input-vacuity'):
@@ -181,7 +192,9 @@ class C03(Check):
             if bad:
                 return 'violation', dict(det, observed=obs, differs_at=bad)
             return 'ok', None
-        if m['EXACT'] != ['1'] and not c.get('partial_warmup'):
+        # (spec_only: the values of the original formula are exact small integers; the warm-up of the pastified monitor, which the property
+        # leaves unspecified, applies the arithmetic to the infinite initial values of the delays, which the executable instance calls inexact)
+        if m['EXACT'] != ['1'] and not c.get('partial_warmup') and not c.get('spec_only'):
             return 'dropped', None
         h = int(m['HOR'][0])
         spec = [None if x == '_' else expect_vals([fml.parse_val(x)])[0] for x in m['SPEC']]
